@@ -82,4 +82,4 @@ def check(ctx, world):
 
     # I4: "as the secret scalar ranges over [0,q)": the sampler's range is all of [0,q) in both groups
     from .common import include
-    include(ctx, world, "c11", "I4", keep=lambda o: o.rule in ("N2", "N6", "R1", "R2", "R5", "R4"))
+    include(ctx, world, "c11", "I4", keep=lambda o: o.rule in ("N2", "N6", "R1", "R1-exact", "R2", "R5", "R4"))
